@@ -1,10 +1,6 @@
 package rapid
 
-
 // C09 / C07: findBug's loop and checkTB's verdict.
-
-
-
 
 // H_C09_findBug: bounded unrolling of the real loop for small N and every outcome sequence.
 func H_C09_findBug() {
@@ -71,16 +67,18 @@ func H_C09_verdict() {
 
 // H_C09_findBugStep: ONE iteration of the real findBug loop from an ARBITRARY loop state
 // satisfying the invariant (loop cut-point): covers every N and every position in the run.
-//   invariant  0 <= valid <= max(N,0), 0 <= invalid <= max(10N,0)
-//   step       pass => valid+1, skip => invalid+1, exactly one property invocation, the
-//              invariant holds again; a falsified case returns at once with the counters unchanged
-//   exit       findBug returns without error only with valid == N or invalid == 10N
+//
+//	invariant  0 <= valid <= max(N,0), 0 <= invalid <= max(10N,0)
+//	step       pass => valid+1, skip => invalid+1, exactly one property invocation, the
+//	           invariant holds again; a falsified case returns at once with the counters unchanged
+//	exit       findBug returns without error only with valid == N or invalid == 10N
+//
 // Natively (replay) the loop runs from its real initial state: the property first passes
 // `valid` times and skips `invalid` times and then does the step's outcome.
 func H_C09_findBugStep() {
 	checks := nondetInt("checks")
 	assume(bAnd(checks >= -2, checks <= 1<<32)) // stated bound: 10*N must not overflow int
-	outcome := choose("outcome", 3)          // this iteration: 0 pass, 1 skip, 2 fail
+	outcome := choose("outcome", 3)             // this iteration: 0 pass, 1 skip, 2 fail
 	// clock 0: the deadline is a day away; clock 1: symbolic clock - the early-exit estimate may
 	// trip at any point, but a test case that was run and falsified the property is never dropped
 	clock := 0
